@@ -1,6 +1,8 @@
 package PVM
 
 import (
+	"encoding/binary"
+
 	"github.com/New-JAMneration/JAM-Protocol/internal/service_account"
 	"github.com/New-JAMneration/JAM-Protocol/internal/types"
 )
@@ -404,13 +406,12 @@ func invoke(input OmegaInput) (output OmegaOutput) {
 	}
 
 	// mu* = mu
-	encoder := types.NewEncoder()
+	// E_8(g') followed by E_8 of each register (the generic encoder has no encoding for *Gas / *uint64: it
+	// returned an error, which was dropped, and 112 zero octets were written back)
 	data = types.ByteSequence(make([]byte, offset))
-	encoded, _ := encoder.Encode(&tempHost.Interpreter.Gas) // encode g'
-	copy(data, encoded)
+	binary.LittleEndian.PutUint64(data, uint64(tempHost.Interpreter.Gas)) // encode g'
 	for i := uint64(1); i < offset/8; i++ {
-		encoded, _ := encoder.Encode(&tempHost.Interpreter.Registers[i-1])
-		copy(data[8*i:8*(i+1)], encoded)
+		binary.LittleEndian.PutUint64(data[8*i:8*(i+1)], tempHost.Interpreter.Registers[i-1])
 	}
 	// write data into memory (mu)
 	input.VM.Memory.Write(o, data)
